@@ -18,282 +18,33 @@
 //!   proper divisor of the next larger unit (day: only 1); must be rejected:
 //!   <= 0 or not dividing the next larger unit (Timestamp: not dividing one
 //!   24-hour day); anything in between is not flagged either way, but if jiff
-//!   accepts it the rounding must be right.
+//!   accepts it the rounding must be right. The `increments` and `options`
+//!   sections additionally hold every type but Timestamp to its documented
+//!   "must also not be equal to the next highest unit" under a signature of
+//!   its own (`.../illegal-increment-not-rejected:equal-to-next-unit`).
+//!
+//! Sections: timestamp, signed_duration, offset, time, datetime (values x all
+//! legal increments x modes), illegal + increments (what must be refused; every
+//! increment 1..=2*next+2 classified), options (every way of building a *Round
+//! value), difference (until/since with rounding options), zoned.
 
-use jiff::civil::{DateTime, DateTimeDifference, DateTimeRound, Time, TimeDifference, TimeRound};
-use jiff::tz::{Offset, OffsetRound};
-use jiff::{RoundMode, SignedDuration, SignedDurationRound, Timestamp, TimestampDifference, TimestampRound, Unit, ZonedRound};
+#[path = "c10/common.rs"]
+mod common;
+#[path = "c10/zoned.rs"]
+mod zoned;
+
+use common::*;
+use jiff::civil::{Date, DateTime, DateTimeDifference, DateTimeRound, Time, TimeDifference, TimeRound};
+use jiff::tz::{Offset, OffsetRound, TimeZone};
+use jiff::{RoundMode, SignedDuration, SignedDurationRound, Timestamp, TimestampDifference, TimestampRound, Unit, ZonedDifference, ZonedRound};
 use rayon::prelude::*;
 use refmodel::cal;
 use refmodel::num::{self, Mode};
-use refmodel::tz as rtz;
 use serde_json::json;
 use std::collections::BTreeSet;
-use std::sync::atomic::{AtomicU64, Ordering::Relaxed};
+use std::sync::atomic::Ordering::Relaxed;
 use vf::conv::{self, DAY_NS, NS};
 use vf::{guard, panic_sig, Report};
-
-const MODES: [(RoundMode, Mode, &str); 9] = [
-    (RoundMode::Ceil, Mode::Ceil, "Ceil"),
-    (RoundMode::Floor, Mode::Floor, "Floor"),
-    (RoundMode::Expand, Mode::Expand, "Expand"),
-    (RoundMode::Trunc, Mode::Trunc, "Trunc"),
-    (RoundMode::HalfCeil, Mode::HalfCeil, "HalfCeil"),
-    (RoundMode::HalfFloor, Mode::HalfFloor, "HalfFloor"),
-    (RoundMode::HalfExpand, Mode::HalfExpand, "HalfExpand"),
-    (RoundMode::HalfTrunc, Mode::HalfTrunc, "HalfTrunc"),
-    (RoundMode::HalfEven, Mode::HalfEven, "HalfEven"),
-];
-
-/// index 0..=6: ns us ms s min h d
-const UNITS: [(Unit, &str, i128); 7] = [
-    (Unit::Nanosecond, "ns", 1),
-    (Unit::Microsecond, "us", 1_000),
-    (Unit::Millisecond, "ms", 1_000_000),
-    (Unit::Second, "s", NS),
-    (Unit::Minute, "min", 60 * NS),
-    (Unit::Hour, "h", 3_600 * NS),
-    (Unit::Day, "d", DAY_NS),
-];
-/// size of the next larger unit, in this unit
-const NEXT: [i64; 6] = [1_000, 1_000, 1_000, 60, 60, 24];
-const BIG_UNITS: [(Unit, &str); 4] = [(Unit::Day, "d"), (Unit::Week, "w"), (Unit::Month, "mo"), (Unit::Year, "y")];
-
-#[derive(Clone, Copy, PartialEq, Eq, Debug)]
-enum Leg {
-    /// legal under both readings: must be accepted
-    Legal,
-    /// legal under one reading only: accepted or rejected, but never wrong
-    Between,
-}
-
-#[derive(Clone, Copy, PartialEq, Eq, Debug)]
-enum Ty {
-    Timestamp,
-    SignedDuration,
-    Offset,
-    Time,
-    DateTime,
-    Zoned,
-}
-
-fn divisors(n: i64) -> Vec<i64> {
-    let mut v = vec![];
-    let mut d = 1i64;
-    while d * d <= n {
-        if n % d == 0 {
-            v.push(d);
-            if d != n / d {
-                v.push(n / d);
-            }
-        }
-        d += 1;
-    }
-    v.sort();
-    v
-}
-
-/// every increment that is legal under at least one reading
-fn increments(ty: Ty, u: usize) -> Vec<(i64, Leg)> {
-    if u == 6 {
-        return vec![(1, Leg::Legal)];
-    }
-    let next = NEXT[u];
-    let mut v: Vec<(i64, Leg)> = divisors(next).into_iter().map(|d| (d, if d < next { Leg::Legal } else { Leg::Between })).collect();
-    if ty == Ty::Timestamp {
-        let day = (DAY_NS / UNITS[u].2) as i64;
-        for d in divisors(day) {
-            if next % d != 0 {
-                v.push((d, Leg::Between));
-            }
-        }
-    }
-    v
-}
-
-/// must this increment be rejected under both readings?
-fn must_reject(ty: Ty, u: usize, inc: i64) -> bool {
-    if inc <= 0 {
-        return true;
-    }
-    if u == 6 {
-        return inc != 1;
-    }
-    if ty == Ty::Timestamp {
-        let day = (DAY_NS / UNITS[u].2) as i64;
-        day % inc != 0
-    } else {
-        NEXT[u] % inc != 0
-    }
-}
-
-fn inc_class(inc: i64) -> &'static str {
-    if inc == 0 {
-        "inc=0"
-    } else if inc < 0 {
-        "inc<0"
-    } else {
-        "non-divisor"
-    }
-}
-
-/// k*b, k*b +-1, (k+1/2)*b, (k+1/2)*b +-1 for k in -3..=2 (for odd b the two
-/// integers straddling the half and their neighbours)
-fn offsets(b: i128) -> BTreeSet<i128> {
-    let mut s = BTreeSet::new();
-    for k in -3..=2i128 {
-        let m = k * b;
-        for x in [m - 1, m, m + 1] {
-            s.insert(x);
-        }
-        let h = m + b / 2;
-        if b % 2 == 0 {
-            for x in [h - 1, h, h + 1] {
-                s.insert(x);
-            }
-        } else {
-            for x in [h - 1, h, h + 1, h + 2] {
-                s.insert(x);
-            }
-        }
-    }
-    s
-}
-
-/// values at and around the limits lo..=hi of a type, for step b
-fn near_limits(b: i128, lo: i128, hi: i128) -> BTreeSet<i128> {
-    let mut s = BTreeSet::new();
-    for x in [lo, lo + 1, hi - 1, hi] {
-        s.insert(x);
-    }
-    let m_hi = hi.div_euclid(b) * b;
-    let m_lo = -((-lo).div_euclid(b) * b);
-    for m in [m_hi, m_lo] {
-        for d in [0, 1, b / 2 - 1, b / 2, b / 2 + 1, b / 2 + 2] {
-            s.insert(m + d);
-            s.insert(m - d);
-        }
-    }
-    s.retain(|x| *x >= lo && *x <= hi);
-    s
-}
-
-struct Tally {
-    ok: AtomicU64,
-    err: AtomicU64,
-    ties: AtomicU64,
-    moved_up: AtomicU64,
-    moved_down: AtomicU64,
-    carried: AtomicU64,
-    wrapped: AtomicU64,
-    between_accepted: AtomicU64,
-    between_rejected: AtomicU64,
-    rejected_ok: AtomicU64,
-    z_kept: AtomicU64,
-    z_fold: AtomicU64,
-    z_gap: AtomicU64,
-    z_day_up: AtomicU64,
-    z_day_down: AtomicU64,
-    z_day_not24: AtomicU64,
-    z_skip_offset: AtomicU64,
-    z_skip_day: AtomicU64,
-    z_skip_amb: AtomicU64,
-    f5_class: AtomicU64,
-}
-impl Tally {
-    fn new() -> Tally {
-        let z = || AtomicU64::new(0);
-        Tally {
-            ok: z(),
-            err: z(),
-            ties: z(),
-            moved_up: z(),
-            moved_down: z(),
-            carried: z(),
-            wrapped: z(),
-            between_accepted: z(),
-            between_rejected: z(),
-            rejected_ok: z(),
-            z_kept: z(),
-            z_fold: z(),
-            z_gap: z(),
-            z_day_up: z(),
-            z_day_down: z(),
-            z_day_not24: z(),
-            z_skip_offset: z(),
-            z_skip_day: z(),
-            z_skip_amb: z(),
-            f5_class: z(),
-        }
-    }
-    fn shape(&self, x: i128, b: i128, res: i128) {
-        if 2 * x.rem_euclid(b) == b {
-            self.ties.fetch_add(1, Relaxed);
-        }
-        if res > x {
-            self.moved_up.fetch_add(1, Relaxed);
-        } else if res < x {
-            self.moved_down.fetch_add(1, Relaxed);
-        }
-    }
-}
-
-#[derive(Clone, Copy, PartialEq, Eq, Debug)]
-enum Want {
-    Ok(i128),
-    Err,
-}
-
-/// Compare one rounding call with the model.
-/// `got`: Err(panic) | Ok(None) = jiff returned Err | Ok(Some(v)).
-/// `class`: an input-derived signature that overrides the generic ones.
-fn judge(r: &Report, t: &Tally, sec: &str, ty: &str, leg: Leg, class: Option<&str>, case: &dyn Fn() -> String, got: Result<Option<i128>, String>, want: Want) {
-    let sig = |generic: &str| -> String {
-        match class {
-            Some(c) => c.to_string(),
-            None => format!("{}::round/{}", ty, generic),
-        }
-    };
-    match (got, want) {
-        (Err(p), w) => {
-            let s = match class {
-                Some(c) => c.to_string(),
-                None => format!("{}::round/{}", ty, panic_sig(&p)),
-            };
-            r.viol(sec, &s, case(), format!("jiff panic {} model {:?}", p, w));
-        }
-        (Ok(None), Want::Err) => {
-            t.err.fetch_add(1, Relaxed);
-        }
-        (Ok(None), Want::Ok(w)) => {
-            if leg == Leg::Between {
-                t.between_rejected.fetch_add(1, Relaxed);
-            } else {
-                r.viol(sec, &sig("err-but-result-in-range"), case(), format!("jiff Err model Ok({})", w));
-            }
-        }
-        (Ok(Some(g)), Want::Err) => {
-            r.viol(sec, &sig("result-out-of-range-not-Err"), case(), format!("jiff Ok({}) model Err (out of range)", g));
-        }
-        (Ok(Some(g)), Want::Ok(w)) => {
-            if leg == Leg::Between {
-                t.between_accepted.fetch_add(1, Relaxed);
-            }
-            t.ok.fetch_add(1, Relaxed);
-            if g != w {
-                r.viol(sec, &sig("value"), case(), format!("jiff {} model {}", g, w));
-            }
-        }
-    }
-}
-
-fn fmt_civil(ns: i128) -> String {
-    let day = ns.div_euclid(DAY_NS);
-    let tod = ns.rem_euclid(DAY_NS);
-    let (y, m, d) = cal::civil_from_days(day as i64);
-    let s = tod / NS;
-    format!("{}-{:02}-{:02}T{:02}:{:02}:{:02}.{:09}", y, m, d, s / 3600, (s / 60) % 60, s % 60, tod % NS)
-}
 
 fn sdur_from_ns(x: i128) -> SignedDuration {
     SignedDuration::new((x / NS) as i64, (x % NS) as i32)
@@ -305,10 +56,71 @@ const SDUR_MIN: i128 = i64::MIN as i128 * NS - 999_999_999;
 const SDUR_MAX: i128 = i64::MAX as i128 * NS + 999_999_999;
 const OFF_MAX_S: i128 = 25 * 3600 + 59 * 60 + 59;
 
+const P63: i128 = 1i128 << 63;
+const P53: i128 = 1i128 << 53;
+/// 2024-03-10T07:00:00.123456789Z and 1900-01-01T00:00:00Z
+const MODERN: i128 = 1_710_054_000 * NS + 123_456_789;
+const Y1900: i128 = -2_208_988_800 * NS;
+
+/// anchors around which the (multiple, tie, +-1ns) shape is laid: the epoch,
+/// the i64-nanosecond boundary, the f64 integer boundary, a modern and a
+/// pre-epoch instant, and the multiples 2^31*b and 2^32*b (quotient width)
+fn anchored(b: i128, lo: i128, hi: i128, extra: &[i128]) -> BTreeSet<i128> {
+    let mut s = offsets(b);
+    let mut centers = vec![P63, -P63, P53, -P53, MODERN, Y1900, (1i128 << 31) * b, -(1i128 << 31) * b, (1i128 << 32) * b, -(1i128 << 32) * b];
+    centers.extend_from_slice(extra);
+    for c in centers {
+        if c > lo + 4 * b && c < hi - 4 * b {
+            s.extend(offsets_at(b, c, 2));
+        }
+    }
+    s.extend(near_limits(b, lo, hi));
+    s.retain(|x| *x >= lo && *x <= hi);
+    s
+}
+
+/// time-of-day values for step b: the shape around midnight (both ends of the
+/// day), around noon and around 09:41:17.123456789
+fn tod_vals(b: i128) -> BTreeSet<i128> {
+    let mut s: BTreeSet<i128> = offsets(b).into_iter().map(|v| v.rem_euclid(DAY_NS)).collect();
+    for c in [DAY_NS / 2, 34_877 * NS + 123_456_789] {
+        s.extend(offsets_at(b, c, 2).into_iter().map(|v| v.rem_euclid(DAY_NS)));
+    }
+    for x in [0, 1, DAY_NS - 1, DAY_NS - 2, DAY_NS / 2 - 1, DAY_NS / 2, DAY_NS / 2 + 1] {
+        s.insert(x);
+    }
+    s
+}
+
+/// the date pool plus every month end (and the 1st) of a leap year, a common
+/// year, a non-leap century year, year 0 and year -1; thorough: every day of
+/// ten years including -9999, -1, 0, 1 and 9999
+fn date_pool(thorough: bool) -> Vec<Date> {
+    let mut days: BTreeSet<i64> = vf::pools::dates().into_iter().map(conv::date_epoch_day).collect();
+    for y in [2024i64, 2023, 1900, 0, -1] {
+        for m in 1..=12 {
+            days.insert(cal::days_from_civil(y, m, 1));
+            days.insert(cal::days_from_civil(if m == 12 { y + 1 } else { y }, if m == 12 { 1 } else { m + 1 }, 1) - 1);
+        }
+    }
+    days.insert(cal::days_from_civil(-9999, 12, 30));
+    days.insert(cal::days_from_civil(9999, 2, 28));
+    if thorough {
+        for y in [-9999i64, -4, -1, 0, 1, 1900, 2000, 2023, 2024, 9999] {
+            let a = cal::days_from_civil(y, 1, 1);
+            let b = cal::days_from_civil(y, 12, 31);
+            for d in a..=b {
+                days.insert(d);
+            }
+        }
+    }
+    days.into_iter().filter_map(conv::date_from_epoch_day).collect()
+}
+
 fn main() {
     let r = Report::from_args("C10");
     let thorough = r.thorough();
-    r.note("alphabets: per (unit, increment): values k*inc, k*inc+-1ns, (k+1/2)*inc, (k+1/2)*inc+-1ns for k in -3..=2 plus the type's limits; all 9 modes; increments: every proper divisor of the next larger unit (and that unit's size, unflagged), for Timestamp every divisor of a 24-hour day in each unit; DateTime on every date of the date pool");
+    r.note("alphabets: per (unit, increment): values k*inc, k*inc+-1ns, (k+1/2)*inc, (k+1/2)*inc+-1ns for k in -3..=2 around the epoch/midnight and for k in -2..=1 around +-2^63 ns, +-2^53 ns, 2024-03-10T07:00:00.123456789Z, 1900-01-01, +-2^31*inc, +-2^32*inc (time of day: noon, 09:41:17.123456789) plus the type's limits; all 9 modes; increments: every proper divisor of the next larger unit (and that unit's size, unflagged), for Timestamp every divisor of a 24-hour day in each unit; Offset: every whole second of its range; Time (thorough): every second of the day x 6 sub-second values; DateTime on the date pool + all month ends of 5 years (thorough: every day of 10 years); every increment 1..=2*next+2 classified per type and unit; every construction of the option value");
     let t = Tally::new();
     let ts_min = conv::ts_min_ns();
     let ts_max = conv::ts_max_ns();
@@ -318,24 +130,38 @@ fn main() {
         let cfgs: Vec<(usize, i64, Leg)> = (0..6).flat_map(|u| increments(Ty::Timestamp, u).into_iter().map(move |(i, l)| (u, i, l))).collect();
         r.count("timestamp_unit_increment_pairs", cfgs.len() as u64);
         cfgs.par_iter().for_each(|&(u, inc, leg)| {
+            let mut l = Loc::new();
             let b = inc as i128 * UNITS[u].2;
-            let mut vals = offsets(b);
-            vals.extend(near_limits(b, ts_min, ts_max));
+            let vals = anchored(b, ts_min, ts_max, &[]);
             let mut n = 0u64;
             for &x in &vals {
                 let ts = Timestamp::from_nanosecond(x).expect("in range");
                 for (jm, mm, mname) in MODES {
                     let res = num::round(x, b, mm);
                     let want = if res >= ts_min && res <= ts_max { Want::Ok(res) } else { Want::Err };
-                    t.shape(x, b, res);
+                    l.shape(Ty::Timestamp, x, b, inc, res);
                     // F4: the rounded instant leaves the Timestamp range
                     let class = if want == Want::Err { Some("Timestamp::round/result-out-of-range-not-Err") } else { None };
                     let case = || format!("Timestamp {} round {}x{} {}", conv::fmt_ns(x), inc, UNITS[u].1, mname);
-                    let got = guard(|| ts.round(TimestampRound::new().smallest(UNITS[u].0).increment(inc).mode(jm)).ok().map(|v| v.as_nanosecond()));
-                    judge(&r, &t, "timestamp", "Timestamp", leg, class, &case, got, want);
+                    let got = guard(|| ts.round(TimestampRound::new().smallest(UNITS[u].0).increment(inc).mode(jm)).ok().map(|v| (v.as_nanosecond(), v.as_second(), v.subsec_nanosecond())));
+                    let parts = match &got {
+                        Ok(Some(p)) => Some(*p),
+                        _ => None,
+                    };
+                    judge(&r, &mut l, "timestamp", "Timestamp::round", leg, class, &case, got.map(|o| o.map(|p| p.0)), want);
+                    // the value must be the normalised representation of that instant
+                    if let (Some((g, s, ns)), Want::Ok(w)) = (parts, want) {
+                        if g == w {
+                            l.inc(C::TsNormChecked);
+                            if s as i128 != w / NS || ns as i128 != w % NS {
+                                r.viol("timestamp", "Timestamp::round/denormalised-result", case(), format!("jiff second {} subsec {} for instant {}", s, ns, conv::fmt_ns(w)));
+                            }
+                        }
+                    }
                     n += 1;
                 }
             }
+            l.flush(&t);
             r.add_states(vals.len() as u64);
             r.add_transitions(n);
             r.add_validated(n);
@@ -348,9 +174,10 @@ fn main() {
         let cfgs: Vec<(usize, i64, Leg)> = (0..6).flat_map(|u| increments(Ty::SignedDuration, u).into_iter().map(move |(i, l)| (u, i, l))).collect();
         r.count("unit_increment_pairs", cfgs.len() as u64);
         cfgs.par_iter().for_each(|&(u, inc, leg)| {
+            let mut l = Loc::new();
             let b = inc as i128 * UNITS[u].2;
-            let mut vals = offsets(b);
-            vals.extend(near_limits(b, SDUR_MIN, SDUR_MAX));
+            // also the 2^64 ns boundary and i64::MIN/MAX whole seconds
+            let vals = anchored(b, SDUR_MIN, SDUR_MAX, &[1i128 << 64, -(1i128 << 64), i64::MAX as i128 * NS, i64::MIN as i128 * NS, (i64::MAX as i128 - 3_600) * NS, (i64::MIN as i128 + 3_600) * NS]);
             let mut n = 0u64;
             for &x in &vals {
                 let d = sdur_from_ns(x);
@@ -358,81 +185,88 @@ fn main() {
                 for (jm, mm, mname) in MODES {
                     let res = num::round(x, b, mm);
                     let want = if res >= SDUR_MIN && res <= SDUR_MAX { Want::Ok(res) } else { Want::Err };
-                    t.shape(x, b, res);
+                    l.shape(Ty::SignedDuration, x, b, inc, res);
                     // input class N2: the in-range result has i64::MIN whole seconds and a
                     // non-zero fraction (jiff floors the seconds of the rounded total)
                     let class = if want != Want::Err && res < i64::MIN as i128 * NS { Some("SignedDuration::round/err-but-result-in-range:secs=i64::MIN-with-fraction") } else { None };
                     let case = || format!("SignedDuration {}ns round {}x{} {}", x, inc, UNITS[u].1, mname);
                     let got = guard(|| d.round(SignedDurationRound::new().smallest(UNITS[u].0).increment(inc).mode(jm)).ok().map(sdur_ns));
-                    judge(&r, &t, "signed_duration", "SignedDuration", leg, class, &case, got, want);
+                    judge(&r, &mut l, "signed_duration", "SignedDuration::round", leg, class, &case, got, want);
                     n += 1;
                 }
             }
+            l.flush(&t);
             r.add_states(vals.len() as u64);
             r.add_transitions(n);
             r.add_validated(n);
         });
     });
 
-    // ---------------- Offset (whole seconds) ----------------
+    // ---------------- Offset (whole seconds): every value of the type ----------------
     r.section("offset", || {
         let cfgs: Vec<(usize, i64, Leg)> = (3..6).flat_map(|u| increments(Ty::Offset, u).into_iter().map(move |(i, l)| (u, i, l))).collect();
-        cfgs.par_iter().for_each(|&(u, inc, leg)| {
+        // quick: every second within +-02:00:00 and within 00:02:00 of the limits;
+        // thorough: every second of the range
+        let chunks: Vec<(i128, i128)> = if thorough {
+            (-OFF_MAX_S..=OFF_MAX_S).step_by(8_192).map(|a| (a, (a + 8_191).min(OFF_MAX_S))).collect()
+        } else {
+            vec![(-OFF_MAX_S, -OFF_MAX_S + 120), (-7_200, -3_601), (-3_600, -1), (0, 3_600), (3_601, 7_200), (OFF_MAX_S - 120, OFF_MAX_S)]
+        };
+        let work: Vec<((usize, i64, Leg), (i128, i128))> = cfgs.iter().flat_map(|c| chunks.iter().map(move |ch| (*c, *ch))).collect();
+        work.par_iter().for_each(|&((u, inc, leg), (lo, hi))| {
+            let mut l = Loc::new();
             let b = inc as i128 * (UNITS[u].2 / NS); // seconds
-            let mut vals = offsets(b);
-            vals.extend(near_limits(b, -OFF_MAX_S, OFF_MAX_S));
-            vals.retain(|x| x.abs() <= OFF_MAX_S);
             let mut n = 0u64;
-            for &x in &vals {
+            for x in lo..=hi {
                 let off = Offset::from_seconds(x as i32).expect("offset in range");
                 for (jm, mm, mname) in MODES {
                     let res = num::round(x, b, mm);
                     let want = if res.abs() <= OFF_MAX_S { Want::Ok(res) } else { Want::Err };
-                    t.shape(x, b, res);
+                    l.shape(Ty::Offset, x, b, inc, res);
                     let case = || format!("Offset {}s round {}x{} {}", x, inc, UNITS[u].1, mname);
                     let got = guard(|| off.round(OffsetRound::new().smallest(UNITS[u].0).increment(inc).mode(jm)).ok().map(|o| o.seconds() as i128));
-                    judge(&r, &t, "offset", "Offset", leg, None, &case, got, want);
+                    judge(&r, &mut l, "offset", "Offset::round", leg, None, &case, got, want);
                     n += 1;
                 }
             }
-            r.add_states(vals.len() as u64);
+            l.flush(&t);
+            r.add_states((hi - lo + 1) as u64);
             r.add_transitions(n);
             r.add_validated(n);
         });
     });
 
-    // time-of-day values for (unit, inc)
-    let tod_vals = |b: i128| -> BTreeSet<i128> {
-        let mut s: BTreeSet<i128> = offsets(b).into_iter().map(|v| v.rem_euclid(DAY_NS)).collect();
-        for x in [0, 1, DAY_NS - 1, DAY_NS - 2, DAY_NS / 2 - 1, DAY_NS / 2, DAY_NS / 2 + 1] {
-            s.insert(x);
-        }
-        s
-    };
-
     // ---------------- Time ----------------
     r.section("time", || {
         let cfgs: Vec<(usize, i64, Leg)> = (0..6).flat_map(|u| increments(Ty::Time, u).into_iter().map(move |(i, l)| (u, i, l))).collect();
-        cfgs.par_iter().for_each(|&(u, inc, leg)| {
+        // thorough: every second of the day x 6 sub-second values, in chunks of an hour
+        let hours: Vec<Option<i128>> = if thorough { std::iter::once(None).chain((0..24).map(Some)).collect() } else { vec![None] };
+        let work: Vec<((usize, i64, Leg), Option<i128>)> = cfgs.iter().flat_map(|c| hours.iter().map(move |h| (*c, *h))).collect();
+        work.par_iter().for_each(|&((u, inc, leg), hour)| {
+            let mut l = Loc::new();
             let b = inc as i128 * UNITS[u].2;
-            let vals = tod_vals(b);
+            let vals: Vec<i128> = match hour {
+                None => tod_vals(b).into_iter().collect(),
+                Some(h) => (h * 3_600..(h + 1) * 3_600).flat_map(|s| [0, 1, 499_999_999, 500_000_000, 500_000_001, 999_999_999].into_iter().map(move |f| s * NS + f)).collect(),
+            };
             let mut n = 0u64;
             for &x in &vals {
                 let tm = conv::time_from_ns(x);
                 for (jm, mm, mname) in MODES {
                     let res = num::round(x, b, mm);
-                    t.shape(x, b, res);
+                    l.shape(Ty::Time, x, b, inc, res);
                     if res == DAY_NS {
-                        t.wrapped.fetch_add(1, Relaxed);
+                        l.inc(C::Wrapped);
                     }
                     // documented: "rounding wraps around on overflow", never an error
                     let want = Want::Ok(res % DAY_NS);
                     let case = || format!("Time {} round {}x{} {}", conv::fmt_ns(x), inc, UNITS[u].1, mname);
                     let got = guard(|| tm.round(TimeRound::new().smallest(UNITS[u].0).increment(inc).mode(jm)).ok().map(conv::time_ns));
-                    judge(&r, &t, "time", "Time", leg, None, &case, got, want);
+                    judge(&r, &mut l, "time", "Time::round", leg, None, &case, got, want);
                     n += 1;
                 }
             }
+            l.flush(&t);
             r.add_states(vals.len() as u64);
             r.add_transitions(n);
             r.add_validated(n);
@@ -441,40 +275,44 @@ fn main() {
 
     // ---------------- DateTime ----------------
     r.section("datetime", || {
-        let dates = vf::pools::dates();
+        let dates = date_pool(thorough);
+        r.count("datetime_dates", dates.len() as u64);
         let cfgs: Vec<(usize, i64, Leg)> = (0..7).flat_map(|u| increments(Ty::DateTime, u).into_iter().map(move |(i, l)| (u, i, l))).collect();
         let dtmax = conv::dt_max_ns();
-        cfgs.par_iter().for_each(|&(u, inc, leg)| {
+        let work: Vec<((usize, i64, Leg), &[Date])> = cfgs.iter().flat_map(|c| dates.chunks(64).map(move |ch| (*c, ch))).collect();
+        work.par_iter().for_each(|&((u, inc, leg), dates)| {
+            let mut l = Loc::new();
             let b = inc as i128 * UNITS[u].2;
             let vals = tod_vals(b);
             let mut n = 0u64;
-            for &d in &dates {
+            for &d in dates {
                 let day = conv::date_epoch_day(d) as i128;
                 let year = d.year();
                 for &x in &vals {
                     let dt = DateTime::from_parts(d, conv::time_from_ns(x));
                     for (jm, mm, mname) in MODES {
                         let rt = num::round(x, b, mm);
-                        t.shape(x, b, rt);
+                        l.shape(Ty::DateTime, x, b, inc, rt);
                         let carry = rt == DAY_NS;
                         let res = day * DAY_NS + rt;
                         let want = if res <= dtmax { Want::Ok(res) } else { Want::Err };
                         let mut class = None;
                         if carry {
-                            t.carried.fetch_add(1, Relaxed);
+                            l.inc(C::Carried);
                             if year <= 0 {
                                 // F5: the day carry is multiplied by signum(year)
-                                t.f5_class.fetch_add(1, Relaxed);
+                                l.inc(C::F5);
                                 class = Some("DateTime::round/day-carry:year<=0");
                             }
                         }
                         let case = || format!("DateTime {} round {}x{} {}", fmt_civil(day * DAY_NS + x), inc, UNITS[u].1, mname);
                         let got = guard(|| dt.round(DateTimeRound::new().smallest(UNITS[u].0).increment(inc).mode(jm)).ok().map(conv::dt_civil_ns));
-                        judge(&r, &t, "datetime", "DateTime", leg, class, &case, got, want);
+                        judge(&r, &mut l, "datetime", "DateTime::round", leg, class, &case, got, want);
                         n += 1;
                     }
                 }
             }
+            l.flush(&t);
             r.add_states((vals.len() * dates.len()) as u64);
             r.add_transitions(n);
             r.add_validated(n);
@@ -482,11 +320,89 @@ fn main() {
         r.sample(json!({"case": "DateTime 0-06-15T23:59:59.900000000 round 1xs HalfExpand", "model": fmt_civil(cal::days_from_civil(0, 6, 16) as i128 * DAY_NS)}));
     });
 
-    // ---------------- increments / units that must be rejected ----------------
+    illegal(&r, &t);
+    r.section("increments", || increments_section(&r, &t));
+    r.section("options", || {
+        options_section(&r, &t);
+        zoned::zoned_options(&r, &t);
+    });
+    r.section("difference", || difference(&r, &t, thorough));
+
+    // ---------------- Zoned ----------------
+    r.section("zoned", || zoned::zoned(&r, &t, thorough));
+
+    for i in 0..NC {
+        r.outcome(C_NAMES[i], t.c[i].load(Relaxed));
+    }
+    for i in 0..6 {
+        r.outcome(&format!("exact_ties_with_odd_increment>1:{}", TY_NAMES[i]), t.odd_ties[i].load(Relaxed));
+        r.outcome(&format!("exact_ties_above_odd_multiple:{}", TY_NAMES[i]), t.odd_quot_ties[i].load(Relaxed));
+    }
+    if r.only_section.is_none() {
+        r.require(t.get(C::Ties) > 0 && t.get(C::Up) > 0 && t.get(C::Down) > 0, "ties, upward and downward roundings all occur");
+        r.require(t.get(C::Err) > 0, "some roundings leave the type's range");
+        r.require(t.get(C::Carried) > 0 && t.get(C::F5) > 0, "datetime roundings carry into the next day, also for years <= 0");
+        r.require(t.get(C::Wrapped) > 0, "time roundings wrap");
+        r.require(t.get(C::RejectedOk) > 0, "illegal increments rejected somewhere");
+        r.require(t.get(C::ZKept) > 0 && t.get(C::ZGap) > 0 && t.get(C::ZFold) > 0, "zoned: offset kept, gap and fold/unique resolution all occur");
+        r.require(t.get(C::ZDayUp) > 0 && t.get(C::ZDayDown) > 0 && t.get(C::ZDayNot24) > 0, "zoned day rounding goes both ways, on days that are not 24h long");
+        // ---- added by the coverage extension ----
+        for i in 0..6 {
+            r.require(t.odd_ties[i].load(Relaxed) > 0, &format!("{}: exact ties with an odd increment > 1 occur", TY_NAMES[i]));
+            r.require(t.odd_quot_ties[i].load(Relaxed) > 0 || i == Ty::Zoned as usize, &format!("{}: exact ties above an odd multiple occur", TY_NAMES[i]));
+        }
+        r.require(t.get(C::TsNormChecked) > 0, "timestamp results checked for normalisation");
+        r.require(t.get(C::IncLegalAccepted) > 0 && t.get(C::IncNonDivisorRejected) > 0 && t.get(C::IncEqualNextRejected) > 0, "increments: legal accepted, non-divisors and the next unit's size rejected");
+        r.require(t.get(C::OptFromUnit) > 0 && t.get(C::OptFromTuple) > 0 && t.get(C::OptPerm) > 0 && t.get(C::OptDefaults) > 0 && t.get(C::OptOverwrite) > 0 && t.get(C::OptRejected) > 0, "options: every construction compared, illegal ones rejected");
+        r.require(t.get(C::DiffIllegalRejected) > 0, "until/since reject illegal increments");
+        r.require(t.get(C::ZF26Class) > 0, "zoned: days after a gap straddling midnight are met (F26 class)");
+        r.require(t.get(C::ZCarryOldYear) > 0, "zoned: carries into the next day in years <= 0");
+        r.require(t.get(C::ZResultChecked) > 0, "zoned: result zone/offset/civil checked");
+        r.require(t.get(C::ZLandedInGapFromAfter) > 0, "zoned: rounding down into a gap from after it");
+        r.require(t.get(C::ZFoldLaterSideKept) > 0 && t.get(C::ZFoldEarlierSideKept) > 0, "zoned: original offset kept on both sides of folds");
+        r.require(t.get(C::ZDayStartNotMidnight) > 0 && t.get(C::ZDayLong) > 0 && t.get(C::ZDayShort) > 0, "zoned day rounding: long, short days and days not starting at midnight");
+        r.require(r.get_count("zoned_synthetic_zones") > 0, "synthetic zones compiled and loaded");
+    }
+    r.finish();
+}
+
+// ---------------------------------------------------------------------------
+// increments / units that must be rejected (probe list)
+// ---------------------------------------------------------------------------
+
+/// one rounding of `x` (ns; Offset: ns of whole seconds) by type, through the builder
+fn round_any(ty: Ty, x: i128, unit: Unit, inc: Option<i64>, jm: RoundMode) -> Result<Option<String>, String> {
+    let tz = TimeZone::UTC;
+    macro_rules! opt {
+        ($R:ident) => {{
+            let o = $R::new().smallest(unit).mode(jm);
+            match inc {
+                Some(i) => o.increment(i),
+                None => o,
+            }
+        }};
+    }
+    match ty {
+        Ty::Timestamp => guard(|| Timestamp::from_nanosecond(x).unwrap().round(opt!(TimestampRound)).ok().map(|v| v.to_string())),
+        Ty::SignedDuration => guard(|| sdur_from_ns(x).round(opt!(SignedDurationRound)).ok().map(|v| format!("{:?}", v))),
+        Ty::Offset => guard(|| Offset::from_seconds((x / NS) as i32).unwrap().round(opt!(OffsetRound)).ok().map(|v| v.to_string())),
+        Ty::Time => guard(|| conv::time_from_ns(x.rem_euclid(DAY_NS)).round(opt!(TimeRound)).ok().map(|v| v.to_string())),
+        Ty::DateTime => guard(|| conv::dt_from_civil_ns(x).unwrap().round(opt!(DateTimeRound)).ok().map(|v| v.to_string())),
+        Ty::Zoned => guard(|| Timestamp::from_nanosecond(x).unwrap().to_zoned(tz.clone()).round(opt!(ZonedRound)).ok().map(|v| v.to_string())),
+    }
+}
+
+const ALL_TYS: [Ty; 6] = [Ty::Timestamp, Ty::SignedDuration, Ty::Offset, Ty::Time, Ty::DateTime, Ty::Zoned];
+
+fn units_of(ty: Ty) -> Vec<usize> {
+    (0..7).filter(|&u| unit_ok(ty, u)).collect()
+}
+
+fn illegal(r: &Report, t: &Tally) {
     r.section("illegal", || {
         let probe_incs = |u: usize| -> Vec<i64> {
             let next = if u < 6 { NEXT[u] } else { 1 };
-            let mut v = vec![0, -1, -3, i64::MIN, 7, 13, 2 * next, next + 1, 7 * next, 1_001, 86_401, i64::MAX];
+            let mut v = vec![0, -1, -3, i64::MIN, i64::MIN + 1, -next, 7, 13, 2 * next, next + 1, 7 * next, 1_001, 86_401, 86_400_000_000_001, i64::MAX, i64::MAX - 1, 1 << 32, (1 << 32) + 1, 1 << 62];
             if u == 6 {
                 v.extend([2, 3, 24]);
             }
@@ -494,16 +410,11 @@ fn main() {
             v.dedup();
             v
         };
-        let tz = jiff::tz::TimeZone::UTC;
-        let n = AtomicU64::new(0);
-        for ty in [Ty::Timestamp, Ty::SignedDuration, Ty::Offset, Ty::Time, Ty::DateTime, Ty::Zoned] {
-            let units: Vec<usize> = match ty {
-                Ty::Offset => vec![3, 4, 5],
-                Ty::DateTime | Ty::Zoned => (0..7).collect(),
-                _ => (0..6).collect(),
-            };
+        let mut l = Loc::new();
+        let mut n = 0u64;
+        for ty in ALL_TYS {
             let tyname = format!("{:?}", ty);
-            for u in units {
+            for u in units_of(ty) {
                 for inc in probe_incs(u) {
                     if !must_reject(ty, u, inc) {
                         continue;
@@ -512,26 +423,17 @@ fn main() {
                     let sig = format!("{}::round/illegal-increment-not-rejected:{}", tyname, inc_class(inc));
                     let ub = UNITS[u].2;
                     let vals: Vec<i128> = match ty {
-                        Ty::Offset => vec![0, 10, -10, 5_400, -5_400],
+                        Ty::Offset => vec![0, 10 * NS, -10 * NS, 5_400 * NS, -5_400 * NS],
                         _ => vec![0, 10 * NS, -10 * NS, ub * 3 / 2, -(ub * 3 / 2), 12_345_678_912_345],
                     };
                     for &x in &vals {
                         for (jm, _mm, mname) in MODES {
-                            let case = format!("{} {} round {}x{} {}", tyname, x, inc, UNITS[u].1, mname);
-                            let unit = UNITS[u].0;
-                            let got: Result<Option<String>, String> = match ty {
-                                Ty::Timestamp => guard(|| Timestamp::from_nanosecond(x).unwrap().round(TimestampRound::new().smallest(unit).increment(inc).mode(jm)).ok().map(|v| v.to_string())),
-                                Ty::SignedDuration => guard(|| sdur_from_ns(x).round(SignedDurationRound::new().smallest(unit).increment(inc).mode(jm)).ok().map(|v| format!("{:?}", v))),
-                                Ty::Offset => guard(|| Offset::from_seconds(x as i32).unwrap().round(OffsetRound::new().smallest(unit).increment(inc).mode(jm)).ok().map(|v| v.to_string())),
-                                Ty::Time => guard(|| conv::time_from_ns(x.rem_euclid(DAY_NS)).round(TimeRound::new().smallest(unit).increment(inc).mode(jm)).ok().map(|v| v.to_string())),
-                                Ty::DateTime => guard(|| conv::dt_from_civil_ns(x).unwrap().round(DateTimeRound::new().smallest(unit).increment(inc).mode(jm)).ok().map(|v| v.to_string())),
-                                Ty::Zoned => guard(|| Timestamp::from_nanosecond(x).unwrap().to_zoned(tz.clone()).round(ZonedRound::new().smallest(unit).increment(inc).mode(jm)).ok().map(|v| v.to_string())),
-                            };
-                            n.fetch_add(1, Relaxed);
+                            let xs = if ty == Ty::Offset { x / NS } else { x };
+                            let case = format!("{} {} round {}x{} {}", tyname, xs, inc, UNITS[u].1, mname);
+                            let got = round_any(ty, x, UNITS[u].0, Some(inc), jm);
+                            n += 1;
                             match got {
-                                Ok(None) => {
-                                    t.rejected_ok.fetch_add(1, Relaxed);
-                                }
+                                Ok(None) => l.inc(C::RejectedOk),
                                 Ok(Some(v)) => r.viol("illegal", &sig, case, format!("jiff Ok({}) but the increment does not evenly divide the next larger unit", v)),
                                 Err(p) => r.viol("illegal", &sig, case, format!("jiff panic {}", p)),
                             }
@@ -553,448 +455,456 @@ fn main() {
                 for x in [0i128, 10 * NS, -10 * NS] {
                     for (jm, _mm, mname) in MODES {
                         let case = format!("{} {} round 1x{} {}", tyname, x, uname, mname);
-                        let got: Result<bool, String> = match ty {
-                            Ty::Timestamp => guard(|| Timestamp::from_nanosecond(x).unwrap().round(TimestampRound::new().smallest(unit).mode(jm)).is_ok()),
-                            Ty::SignedDuration => guard(|| sdur_from_ns(x).round(SignedDurationRound::new().smallest(unit).mode(jm)).is_ok()),
-                            Ty::Offset => guard(|| Offset::from_seconds((x / NS) as i32).unwrap().round(OffsetRound::new().smallest(unit).mode(jm)).is_ok()),
-                            Ty::Time => guard(|| conv::time_from_ns(x.rem_euclid(DAY_NS)).round(TimeRound::new().smallest(unit).mode(jm)).is_ok()),
-                            Ty::DateTime => guard(|| conv::dt_from_civil_ns(x).unwrap().round(DateTimeRound::new().smallest(unit).mode(jm)).is_ok()),
-                            Ty::Zoned => guard(|| Timestamp::from_nanosecond(x).unwrap().to_zoned(tz.clone()).round(ZonedRound::new().smallest(unit).mode(jm)).is_ok()),
-                        };
-                        n.fetch_add(1, Relaxed);
-                        match got {
-                            Ok(false) => {
-                                t.rejected_ok.fetch_add(1, Relaxed);
+                        // without an increment, and with the ones a mistaken table might accept
+                        for inc in [None, Some(1i64), Some(2), Some(7)] {
+                            let got = round_any(ty, x, unit, inc, jm);
+                            n += 1;
+                            match got {
+                                Ok(None) => l.inc(C::RejectedOk),
+                                Ok(Some(_)) => r.viol("illegal", &format!("{}::round/unsupported-unit-not-rejected", tyname), case.clone(), "jiff Ok for a unit the type's documentation excludes"),
+                                Err(p) => r.viol("illegal", &format!("{}::round/unsupported-unit:{}", tyname, panic_sig(&p)), case.clone(), p),
                             }
-                            Ok(true) => r.viol("illegal", &format!("{}::round/unsupported-unit-not-rejected", tyname), case, "jiff Ok for a unit the type's documentation excludes"),
-                            Err(p) => r.viol("illegal", &format!("{}::round/unsupported-unit:{}", tyname, panic_sig(&p)), case, p),
                         }
                     }
                 }
             }
         }
-        let n = n.load(Relaxed);
+        l.flush(t);
         r.add_states(n);
         r.add_transitions(n);
         r.add_validated(n);
     });
+}
 
-    // ---------------- until / since with rounding options ----------------
-    r.section("difference", || {
-        // total of the returned span must be round(b - a) resp. round(a - b)
-        let span_ns = |s: jiff::Span| -> i128 {
-            assert!(s.get_years() == 0 && s.get_months() == 0 && s.get_weeks() == 0 && s.get_days() == 0);
-            s.get_hours() as i128 * 3_600 * NS
-                + s.get_minutes() as i128 * 60 * NS
-                + s.get_seconds() as i128 * NS
-                + s.get_milliseconds() as i128 * 1_000_000
-                + s.get_microseconds() as i128 * 1_000
-                + s.get_nanoseconds() as i128
-        };
-        let cfgs: Vec<(usize, i64)> = (0..6)
-            .flat_map(|u| {
-                let all: Vec<i64> = divisors(NEXT[u]).into_iter().filter(|&d| d < NEXT[u]).collect();
-                let pick: Vec<i64> = if thorough { all } else { all.into_iter().filter(|d| [1, 2, 5, 15, 30, 500, 3, 12].contains(d)).collect() };
-                pick.into_iter().map(move |i| (u, i))
-            })
-            .collect();
-        let times = vf::pools::times();
-        let tss = vf::pools::timestamps();
-        let dts: Vec<DateTime> = {
-            let ds = vf::pools::dates();
-            let tms = [Time::midnight(), Time::new(11, 59, 59, 999_999_999).unwrap(), Time::new(23, 59, 59, 500_000_000).unwrap()];
-            ds.iter().flat_map(|&d| tms.iter().map(move |&tm| DateTime::from_parts(d, tm))).collect()
-        };
-        cfgs.par_iter().for_each(|&(u, inc)| {
-            let b = inc as i128 * UNITS[u].2;
-            let unit = UNITS[u].0;
-            let mut n = 0u64;
-            let check = |what: &str, case: &dyn Fn() -> String, got: Result<Option<i128>, String>, want: i128| match got {
-                Err(p) => r.viol("difference", &format!("{}/{}", what, panic_sig(&p)), case(), p),
-                Ok(None) => {
-                    // a rounded total beyond the span limit of 175_307_616 hours may be refused
-                    if want.abs() <= 175_307_616 * 3_600 * NS {
-                        r.viol("difference", &format!("{}/err", what), case(), format!("jiff Err model {}", want))
-                    }
+// ---------------------------------------------------------------------------
+// every increment 1..=2*next+2 (Timestamp: also every divisor of the day, +-1)
+// classified per type and unit
+// ---------------------------------------------------------------------------
+
+fn increments_section(r: &Report, t: &Tally) {
+    let work: Vec<(Ty, usize)> = ALL_TYS.iter().flat_map(|&ty| units_of(ty).into_iter().map(move |u| (ty, u))).collect();
+    work.par_iter().for_each(|&(ty, u)| {
+        let mut l = Loc::new();
+        let tyname = TY_NAMES[ty as usize];
+        let mut incs: BTreeSet<i64> = BTreeSet::new();
+        if u == 6 {
+            incs.extend(1..=50);
+        } else {
+            incs.extend(1..=2 * NEXT[u] + 2);
+            if ty == Ty::Timestamp {
+                let day = (DAY_NS / UNITS[u].2) as i64;
+                for d in divisors(day) {
+                    incs.extend([d - 1, d, d + 1]);
                 }
-                Ok(Some(g)) => {
-                    if g != want {
-                        r.viol("difference", &format!("{}/value", what), case(), format!("jiff total {}ns model {}ns", g, want));
-                    }
-                }
+                incs.extend([2 * day, 2 * day + 1]);
+            }
+        }
+        incs.retain(|&i| i >= 1);
+        let ub = UNITS[u].2;
+        let mut n = 0u64;
+        for &inc in &incs {
+            let exp = expect(ty, u, inc);
+            // a value that is an odd multiple and a half of the unit away from zero / midnight
+            let b = inc as i128 * ub;
+            let xs: Vec<i128> = match ty {
+                Ty::Offset => vec![5_430 * NS, -5_430 * NS],
+                _ => vec![ub * 3 / 2 + b, -(ub * 3 / 2) - b],
             };
-            for (jm, mm, mname) in MODES {
-                for &a in &times {
-                    for &c in &times {
-                        let diff = conv::time_ns(c) - conv::time_ns(a);
-                        let case = |op: &str| format!("Time {} {} {} smallest {}x{} {}", a, op, c, inc, UNITS[u].1, mname);
-                        check("Time::until(rounded)", &|| case("until"), guard(|| a.until(TimeDifference::new(c).smallest(unit).increment(inc).mode(jm)).ok().map(span_ns)), num::round(diff, b, mm));
-                        check("Time::since(rounded)", &|| case("since"), guard(|| a.since(TimeDifference::new(c).smallest(unit).increment(inc).mode(jm)).ok().map(span_ns)), num::round(-diff, b, mm));
-                        t.shape(diff, b, num::round(diff, b, mm));
-                        n += 2;
-                    }
-                }
-                for &a in &tss {
-                    for &c in &tss {
-                        let diff = c.as_nanosecond() - a.as_nanosecond();
-                        let case = |op: &str| format!("Timestamp {} {} {} largest h smallest {}x{} {}", conv::fmt_ns(a.as_nanosecond()), op, conv::fmt_ns(c.as_nanosecond()), inc, UNITS[u].1, mname);
-                        check("Timestamp::until(rounded)", &|| case("until"), guard(|| a.until(TimestampDifference::new(c).largest(Unit::Hour).smallest(unit).increment(inc).mode(jm)).ok().map(span_ns)), num::round(diff, b, mm));
-                        check("Timestamp::since(rounded)", &|| case("since"), guard(|| a.since(TimestampDifference::new(c).largest(Unit::Hour).smallest(unit).increment(inc).mode(jm)).ok().map(span_ns)), num::round(-diff, b, mm));
-                        n += 2;
-                    }
-                }
-                for &a in &dts {
-                    for &c in &dts {
-                        let diff = conv::dt_civil_ns(c) - conv::dt_civil_ns(a);
-                        let case = |op: &str| format!("DateTime {} {} {} largest h smallest {}x{} {}", a, op, c, inc, UNITS[u].1, mname);
-                        check("DateTime::until(rounded)", &|| case("until"), guard(|| a.until(DateTimeDifference::new(c).largest(Unit::Hour).smallest(unit).increment(inc).mode(jm)).ok().map(span_ns)), num::round(diff, b, mm));
-                        check("DateTime::since(rounded)", &|| case("since"), guard(|| a.since(DateTimeDifference::new(c).largest(Unit::Hour).smallest(unit).increment(inc).mode(jm)).ok().map(span_ns)), num::round(-diff, b, mm));
-                        n += 2;
+            for &x0 in &xs {
+                // keep the operand inside every type's domain
+                let x = match ty {
+                    Ty::Time => x0.rem_euclid(DAY_NS),
+                    Ty::Timestamp | Ty::DateTime | Ty::Zoned => x0.clamp(-(1i128 << 66), 1i128 << 66),
+                    _ => x0,
+                };
+                for mi in [HALF_EXPAND, 1usize] {
+                    let (jm, mm, mname) = MODES[mi];
+                    let xs_ = if ty == Ty::Offset { x / NS } else { x };
+                    let case = || format!("{} {} round {}x{} {}", tyname, xs_, inc, UNITS[u].1, mname);
+                    let got: Result<Option<i128>, String> = match ty {
+                        Ty::Timestamp => guard(|| Timestamp::from_nanosecond(x).unwrap().round(TimestampRound::new().smallest(UNITS[u].0).increment(inc).mode(jm)).ok().map(|v| v.as_nanosecond())),
+                        Ty::SignedDuration => guard(|| sdur_from_ns(x).round(SignedDurationRound::new().smallest(UNITS[u].0).increment(inc).mode(jm)).ok().map(sdur_ns)),
+                        Ty::Offset => guard(|| Offset::from_seconds((x / NS) as i32).unwrap().round(OffsetRound::new().smallest(UNITS[u].0).increment(inc).mode(jm)).ok().map(|v| v.seconds() as i128 * NS)),
+                        Ty::Time => guard(|| conv::time_from_ns(x).round(TimeRound::new().smallest(UNITS[u].0).increment(inc).mode(jm)).ok().map(conv::time_ns)),
+                        Ty::DateTime => guard(|| conv::dt_from_civil_ns(x).unwrap().round(DateTimeRound::new().smallest(UNITS[u].0).increment(inc).mode(jm)).ok().map(conv::dt_civil_ns)),
+                        Ty::Zoned => guard(|| Timestamp::from_nanosecond(x).unwrap().to_zoned(TimeZone::UTC).round(ZonedRound::new().smallest(UNITS[u].0).increment(inc).mode(jm)).ok().map(|v| v.timestamp().as_nanosecond())),
+                    };
+                    n += 1;
+                    // model value (UTC zone: Zoned = Timestamp = civil)
+                    let model = match ty {
+                        Ty::Time => num::round(x, b, mm) % DAY_NS,
+                        Ty::DateTime | Ty::Zoned => {
+                            let day = x.div_euclid(DAY_NS);
+                            day * DAY_NS + num::round(x.rem_euclid(DAY_NS), b, mm)
+                        }
+                        _ => num::round(x, b, mm),
+                    };
+                    let in_range = match ty {
+                        Ty::Offset => model.abs() <= OFF_MAX_S * NS,
+                        _ => true,
+                    };
+                    match exp {
+                        Exp::Legal => {
+                            l.inc(C::IncLegalAccepted);
+                            let want = if in_range { Want::Ok(model) } else { Want::Err };
+                            judge(r, &mut l, "increments", &format!("{}::round", tyname), Leg::Legal, None, &case, got, want);
+                        }
+                        Exp::Between => match got {
+                            Ok(None) => l.inc(C::IncBetweenRejected),
+                            Ok(Some(g)) => {
+                                l.inc(C::IncBetweenAccepted);
+                                if g != model {
+                                    r.viol("increments", &format!("{}::round/value", tyname), case(), format!("jiff {} model {}", g, model));
+                                }
+                            }
+                            Err(p) => r.viol("increments", &format!("{}::round/{}", tyname, panic_sig(&p)), case(), p),
+                        },
+                        Exp::Reject | Exp::RejectEqualNext => {
+                            let class = if exp == Exp::RejectEqualNext { "equal-to-next-unit" } else { inc_class(inc) };
+                            let sig = format!("{}::round/illegal-increment-not-rejected:{}", tyname, class);
+                            match got {
+                                Ok(None) => l.inc(if exp == Exp::RejectEqualNext { C::IncEqualNextRejected } else { C::IncNonDivisorRejected }),
+                                Ok(Some(v)) => r.viol("increments", &sig, case(), format!("jiff Ok({}) but the increment {}", v, if exp == Exp::RejectEqualNext { "equals the next larger unit (documented: must not)" } else { "does not evenly divide the next larger unit" })),
+                                Err(p) => r.viol("increments", &sig, case(), format!("jiff panic {}", p)),
+                            }
+                        }
                     }
                 }
             }
-            r.add_states(n / 18);
-            r.add_transitions(n);
-            r.add_validated(n);
-        });
+        }
+        l.flush(t);
+        r.add_states(incs.len() as u64);
+        r.add_transitions(n);
+        r.add_validated(n);
     });
-
-    // ---------------- Zoned ----------------
-    r.section("zoned", || zoned(&r, &t, thorough));
-
-    for (name, c) in [
-        ("results_in_range", &t.ok),
-        ("results_out_of_range_err", &t.err),
-        ("exact_ties", &t.ties),
-        ("rounded_up", &t.moved_up),
-        ("rounded_down", &t.moved_down),
-        ("datetime_carried_into_next_day", &t.carried),
-        ("datetime_carry_with_year<=0", &t.f5_class),
-        ("time_wrapped_to_midnight", &t.wrapped),
-        ("in_between_increment_accepted", &t.between_accepted),
-        ("in_between_increment_rejected", &t.between_rejected),
-        ("illegal_increment_or_unit_rejected", &t.rejected_ok),
-        ("zoned_original_offset_kept", &t.z_kept),
-        ("zoned_compatible_in_fold_or_unique", &t.z_fold),
-        ("zoned_compatible_in_gap", &t.z_gap),
-        ("zoned_day_rounded_up", &t.z_day_up),
-        ("zoned_day_rounded_down", &t.z_day_down),
-        ("zoned_day_length_not_24h", &t.z_day_not24),
-        ("zoned_skipped_offset_disagrees_with_model(C03)", &t.z_skip_offset),
-        ("zoned_skipped_day_bounds_undefined", &t.z_skip_day),
-        ("zoned_skipped_resolution_undefined", &t.z_skip_amb),
-    ] {
-        r.outcome(name, c.load(Relaxed));
-    }
-    if r.only_section.is_none() {
-        r.require(t.ties.load(Relaxed) > 0 && t.moved_up.load(Relaxed) > 0 && t.moved_down.load(Relaxed) > 0, "ties, upward and downward roundings all occur");
-        r.require(t.err.load(Relaxed) > 0, "some roundings leave the type's range");
-        r.require(t.carried.load(Relaxed) > 0 && t.f5_class.load(Relaxed) > 0, "datetime roundings carry into the next day, also for years <= 0");
-        r.require(t.wrapped.load(Relaxed) > 0, "time roundings wrap");
-        r.require(t.rejected_ok.load(Relaxed) > 0, "illegal increments rejected somewhere");
-        r.require(t.z_kept.load(Relaxed) > 0 && t.z_gap.load(Relaxed) > 0 && t.z_fold.load(Relaxed) > 0, "zoned: offset kept, gap and fold/unique resolution all occur");
-        r.require(t.z_day_up.load(Relaxed) > 0 && t.z_day_down.load(Relaxed) > 0 && t.z_day_not24.load(Relaxed) > 0, "zoned day rounding goes both ways, on days that are not 24h long");
-    }
-    r.finish();
 }
 
 // ---------------------------------------------------------------------------
-// Zoned
+// every way of building the option value
 // ---------------------------------------------------------------------------
 
-fn utoff_of_piece(z: &rtz::Zone, k: usize) -> i64 {
-    z.infos[z.pieces[k].info as usize].utoff as i64
+/// One type's run of the options product. `call(x, how, unit, inc, mode, other
+/// unit, other inc, other mode)`; `model(x, b, mode)` with x and b in the
+/// type's own scale (`scale` ns per count).
+fn options_for(
+    r: &Report,
+    t: &Tally,
+    ty: Ty,
+    def_u: usize,
+    scale: i128,
+    vals: &(dyn Fn(i128) -> Vec<i128> + Sync),
+    call: &(dyn Fn(i128, How, Unit, i64, RoundMode, Unit, i64, RoundMode) -> Result<Option<i128>, String> + Sync),
+    model: &(dyn Fn(i128, i128, Mode) -> Want + Sync),
+) {
+    let tyname = TY_NAMES[ty as usize];
+    // per unit: 1, an even and odd increments > 1; plus illegal ones
+    let incs_of = |u: usize| -> Vec<i64> {
+        match u {
+            0..=2 => vec![1, 2, 5, 125, 7, 1_000, 0],
+            3 | 4 => vec![1, 2, 3, 15, 7, 60, -1],
+            5 => vec![1, 2, 3, 5, 24, 0],
+            _ => vec![1, 2],
+        }
+    };
+    let cfgs: Vec<(usize, i64)> = (0..7).flat_map(|u| incs_of(u).into_iter().map(move |i| (u, i))).collect();
+    cfgs.par_iter().for_each(|&(u, inc)| {
+        let mut l = Loc::new();
+        let mut n = 0u64;
+        let unit = UNITS[u].0;
+        let b_for_vals = (if inc > 0 && unit_ok(ty, u) { inc as i128 * UNITS[u].2 / scale } else { UNITS[u.clamp(3, 5)].2 / scale }).max(1);
+        let xs = vals(b_for_vals);
+        for &x in &xs {
+            for (mi, (jm, _mm, mname)) in MODES.iter().enumerate() {
+                for how in HOWS {
+                    if !how.uses_mode() && mi != 0 {
+                        continue;
+                    }
+                    let (eu, einc, em) = how.effective(u, inc, mi, def_u);
+                    let exp = expect(ty, eu, einc);
+                    let (ou, oi, om) = (if u == 5 { Unit::Second } else { Unit::Hour }, 7i64, MODES[(mi + 4) % 9].0);
+                    let got = call(x, how, unit, inc, *jm, ou, oi, om);
+                    let case = || format!("{} {} round via {} unit={} inc={} mode={}", tyname, x, how.name(), UNITS[u].1, inc, mname);
+                    let op = format!("{}::round({})", tyname, how.class());
+                    n += 1;
+                    match exp {
+                        Exp::Reject | Exp::RejectEqualNext => match got {
+                            Ok(None) => l.inc(C::OptRejected),
+                            Ok(Some(v)) => r.viol("options", &format!("{}/illegal-increment-or-unit-not-rejected", op), case(), format!("jiff Ok({}); the construction means unit={} inc={}", v, UNITS[eu].1, einc)),
+                            Err(p) => r.viol("options", &format!("{}/{}", op, panic_sig(&p)), case(), p),
+                        },
+                        Exp::Between => {}
+                        Exp::Legal => {
+                            let b = einc as i128 * UNITS[eu].2 / scale;
+                            let want = if b == 0 { Want::Ok(x) } else { model(x, b, MODES[em].1) };
+                            l.inc(how.counter());
+                            judge(r, &mut l, "options", &op, Leg::Legal, None, &case, got, want);
+                        }
+                    }
+                }
+            }
+        }
+        l.flush(t);
+        r.add_states(xs.len() as u64);
+        r.add_transitions(n);
+        r.add_validated(n);
+    });
 }
 
-/// first instant (unix seconds) whose local date is epoch day `d`
-fn first_instant_of_day(z: &rtz::Zone, d: i64) -> Option<i64> {
-    let c = d * 86_400;
-    let pre = z.preimages(c);
-    if let Some(m) = pre.iter().map(|p| p.0).min() {
-        return Some(m);
-    }
-    let g = z.gap_around(c);
-    if g.len() == 1 {
-        Some(z.pieces[g[0]].start)
-    } else {
-        None
-    }
-}
-
-enum ZWant {
-    Ok(i128),
-    Err,
-    Skip,
-}
-
-fn zoned(r: &Report, t: &Tally, thorough: bool) {
+fn options_section(r: &Report, t: &Tally) {
     let ts_min = conv::ts_min_ns();
     let ts_max = conv::ts_max_ns();
-    let dt_max = conv::dt_max_ns();
-    let mut srcs = vf::zones::rep();
-    if thorough {
-        let have: BTreeSet<String> = srcs.iter().map(|z| z.name.clone()).collect();
-        for z in vf::zones::sys(true) {
-            if !have.contains(&z.name) {
-                srcs.push(z);
-            }
-        }
-    }
-    let n_rep = vf::zones::REP.len();
-    r.count("zoned_zones", srcs.len() as u64);
-    // sub-day (unit, increment) pairs of DESIGN.md: increments {1, 2, 15, 30} where legal
-    let cfgs: Vec<(usize, i64)> = (0..6).flat_map(|u| [1i64, 2, 15, 30].into_iter().filter(move |&i| i < NEXT[u] && NEXT[u] % i == 0).map(move |i| (u, i))).collect();
-    let n_trans = AtomicU64::new(0);
-    let n_load_fail = AtomicU64::new(0);
-    srcs.par_iter().enumerate().for_each(|(zi, src)| {
-        let pair = match vf::zones::load_pair(src) {
-            Ok(p) => p,
-            Err(_) => {
-                n_load_fail.fetch_add(1, Relaxed);
-                return;
-            }
-        };
-        let z = &pair.model;
-        let is_rep = zi < n_rep;
-        // which transitions: recorded ones always; rule-generated ones by year
-        let year_ok = |y: i64| -> bool {
-            if thorough && is_rep {
-                true
-            } else if thorough {
-                y <= 2040
+    let dtmax = conv::dt_max_ns();
+    let shape = |b: i128| -> Vec<i128> { offsets(b).into_iter().collect() };
+
+    options_for(
+        r,
+        t,
+        Ty::Timestamp,
+        0,
+        1,
+        &|b| {
+            let mut v = shape(b);
+            v.extend([ts_max, ts_min, MODERN]);
+            v
+        },
+        &|x, how, u, i, m, ou, oi, om| guard(|| c10_round!(Timestamp::from_nanosecond(x).unwrap(), TimestampRound, how, u, i, m, ou, oi, om).ok().map(|v| v.as_nanosecond())),
+        &|x, b, mm| {
+            let res = num::round(x, b, mm);
+            if res >= ts_min && res <= ts_max {
+                Want::Ok(res)
             } else {
-                y <= 2100 || y >= 9990 || y % 100 == 0
+                Want::Err
             }
-        };
-        let ks: Vec<usize> = z
-            .changing()
-            .into_iter()
-            .filter(|&k| {
-                let p = &z.pieces[k];
-                if p.start < vf::zones::TS_MIN_SEC + 200_000 || p.start > vf::zones::TS_MAX_SEC - 200_000 {
-                    return false;
-                }
-                p.recorded || year_ok(cal::civil_from_days(p.start.div_euclid(86_400)).0)
-            })
-            .collect();
-        n_trans.fetch_add(ks.len() as u64, Relaxed);
-        ks.par_iter().for_each(|&k| {
-            let tr = z.pieces[k].start;
-            let ob = utoff_of_piece(z, k - 1);
-            let oa = utoff_of_piece(z, k);
-            // the civil days touched by the transition
-            let mut days = BTreeSet::new();
-            days.insert((tr - 1 + ob).div_euclid(86_400));
-            days.insert((tr + oa).div_euclid(86_400));
-            let mut probes: BTreeSet<i128> = BTreeSet::new();
-            for &d in &days {
-                if let (Some(s0), Some(s1)) = (first_instant_of_day(z, d), first_instant_of_day(z, d + 1)) {
-                    if s1 > s0 {
-                        let l = (s1 - s0) as i128 * NS;
-                        let s = s0 as i128 * NS;
-                        for x in [s - 1, s, s + 1, s + l / 4, s + l / 2 - 1, s + l / 2, s + l / 2 + 1, s + 3 * l / 4] {
-                            probes.insert(x);
-                        }
-                    }
-                }
+        },
+    );
+    options_for(
+        r,
+        t,
+        Ty::SignedDuration,
+        0,
+        1,
+        &|b| {
+            let mut v = shape(b);
+            v.extend([SDUR_MAX, SDUR_MIN, MODERN]);
+            v
+        },
+        &|x, how, u, i, m, ou, oi, om| guard(|| c10_round!(sdur_from_ns(x), SignedDurationRound, how, u, i, m, ou, oi, om).ok().map(sdur_ns)),
+        &|x, b, mm| {
+            let res = num::round(x, b, mm);
+            if res >= SDUR_MIN && res <= SDUR_MAX {
+                Want::Ok(res)
+            } else {
+                Want::Err
             }
-            let trn = tr as i128 * NS;
-            for x in [trn - 1, trn, trn + 1] {
-                probes.insert(x);
+        },
+    );
+    // Offset: values in seconds; the default unit of OffsetRound::new() is the second
+    options_for(
+        r,
+        t,
+        Ty::Offset,
+        3,
+        NS,
+        &|b| {
+            let mut v: Vec<i128> = shape(b).into_iter().filter(|x| x.abs() <= OFF_MAX_S).collect();
+            v.extend([OFF_MAX_S, -OFF_MAX_S, 5_430, -5_430, 45]);
+            v
+        },
+        &|x, how, u, i, m, ou, oi, om| guard(|| c10_round!(Offset::from_seconds(x as i32).unwrap(), OffsetRound, how, u, i, m, ou, oi, om).ok().map(|v| v.seconds() as i128)),
+        &|x, b, mm| {
+            let res = num::round(x, b, mm);
+            if res.abs() <= OFF_MAX_S {
+                Want::Ok(res)
+            } else {
+                Want::Err
             }
-            let mut n = 0u64;
-            let mut states = 0u64;
-            let mut run_probe = |x: i128, only_cfg: Option<(usize, i64)>| {
-                if x < ts_min || x > ts_max {
-                    return;
-                }
-                states += 1;
-                n += zoned_probe(r, t, &pair, x, &cfgs, only_cfg, dt_max, ts_min, ts_max);
-            };
-            for &x in &probes {
-                run_probe(x, None);
+        },
+    );
+    options_for(
+        r,
+        t,
+        Ty::Time,
+        0,
+        1,
+        &|b| {
+            let mut v: BTreeSet<i128> = shape(b).into_iter().map(|x| x.rem_euclid(DAY_NS)).collect();
+            v.extend([DAY_NS - 1, DAY_NS / 2, 34_877 * NS + 500_000_000]);
+            v.into_iter().collect()
+        },
+        &|x, how, u, i, m, ou, oi, om| guard(|| c10_round!(conv::time_from_ns(x), TimeRound, how, u, i, m, ou, oi, om).ok().map(conv::time_ns)),
+        &|x, b, mm| Want::Ok(num::round(x, b, mm) % DAY_NS),
+    );
+    // DateTime: civil ns; three dates (1970-01-01 / 1969-12-31 from the shape, year 0, the maximum)
+    let y0 = cal::days_from_civil(0, 12, 31) as i128 * DAY_NS;
+    let ymax = cal::days_from_civil(9999, 12, 31) as i128 * DAY_NS;
+    options_for(
+        r,
+        t,
+        Ty::DateTime,
+        0,
+        1,
+        &|b| {
+            let base = shape(b);
+            let mut v = base.clone();
+            for d in [y0, ymax] {
+                v.extend(base.iter().map(|x| d + x.rem_euclid(DAY_NS)));
             }
-            // transition +- half an increment, for that (unit, increment) only
-            for &(u, inc) in &cfgs {
-                let b = inc as i128 * UNITS[u].2;
-                for x in [trn - b / 2, trn + b / 2] {
-                    if b >= 2 && !probes.contains(&x) {
-                        run_probe(x, Some((u, inc)));
-                    }
-                }
+            v.extend([y0 + DAY_NS - 1, ymax + DAY_NS - 1, y0 + DAY_NS / 2]);
+            v
+        },
+        &|x, how, u, i, m, ou, oi, om| guard(|| c10_round!(conv::dt_from_civil_ns(x).unwrap(), DateTimeRound, how, u, i, m, ou, oi, om).ok().map(conv::dt_civil_ns)),
+        &|x, b, mm| {
+            let res = x.div_euclid(DAY_NS) * DAY_NS + num::round(x.rem_euclid(DAY_NS), b, mm);
+            if res <= dtmax {
+                Want::Ok(res)
+            } else {
+                Want::Err
             }
-            r.add_states(states);
-            r.add_transitions(n);
-            r.add_validated(n);
-        });
-        // type limits in this zone
-        if is_rep {
-            let mut n = 0;
-            for x in [ts_min, ts_min + 1, ts_max - 1, ts_max] {
-                n += zoned_probe(r, t, &pair, x, &cfgs, None, dt_max, ts_min, ts_max);
-            }
-            r.add_states(4);
-            r.add_transitions(n);
-            r.add_validated(n);
-        }
-    });
-    r.sample(json!({"case": "Zoned America/Sao_Paulo 2015-10-18T12:40-02:00 round 1xd HalfExpand", "model": "day runs 01:00..24:00 (23h), 11h40m elapsed > half, so 2015-10-19T00:00-02:00"}));
-    r.count("zoned_transitions_probed", n_trans.load(Relaxed));
-    r.count("zoned_zones_not_loadable", n_load_fail.load(Relaxed));
-    r.note(format!(
-        "zoned: {} zones; every transition day probed at start-of-day (+-1ns), 1/4, 1/2 (+-1ns), 3/4 of its real length and at the transition (+-1ns, +-inc/2); sub-day units x increments {{1,2,15,30}} where legal x 9 modes, and Unit::Day x 9 modes",
-        srcs.len()
-    ));
+        },
+    );
 }
 
-/// All roundings of one zoned instant. Returns the number of comparisons.
-fn zoned_probe(r: &Report, t: &Tally, pair: &vf::zones::Pair, x: i128, cfgs: &[(usize, i64)], only_cfg: Option<(usize, i64)>, dt_max: i128, ts_min: i128, ts_max: i128) -> u64 {
-    let z = &pair.model;
-    let sec = x.div_euclid(NS) as i64;
-    let off = z.utoff_at(sec) as i64;
-    let civil = x + off as i128 * NS;
-    let zdt = match guard(|| Timestamp::from_nanosecond(x).unwrap().to_zoned(pair.jiff.clone())) {
-        Ok(zd) => zd,
-        Err(p) => {
-            r.viol("zoned", &format!("Timestamp::to_zoned/{}", panic_sig(&p)), format!("Zoned {} {}", pair.name, conv::fmt_ns(x)), p);
-            return 0;
-        }
+// ---------------------------------------------------------------------------
+// until / since with rounding options
+// ---------------------------------------------------------------------------
+
+fn difference(r: &Report, t: &Tally, thorough: bool) {
+    // total of the returned span must be round(b - a) resp. round(a - b)
+    let span_ns = |s: jiff::Span| -> i128 {
+        assert!(s.get_years() == 0 && s.get_months() == 0 && s.get_weeks() == 0 && s.get_days() == 0);
+        s.get_hours() as i128 * 3_600 * NS + s.get_minutes() as i128 * 60 * NS + s.get_seconds() as i128 * NS + s.get_milliseconds() as i128 * 1_000_000 + s.get_microseconds() as i128 * 1_000 + s.get_nanoseconds() as i128
     };
-    if zdt.offset().seconds() as i64 != off {
-        // jiff and the model disagree on the offset in force at this instant:
-        // that is C03's subject (F2), the rounding property says nothing here
-        t.z_skip_offset.fetch_add(1, Relaxed);
-        return 0;
+    let cfgs: Vec<(usize, i64)> = (0..6)
+        .flat_map(|u| {
+            let all: Vec<i64> = divisors(NEXT[u]).into_iter().filter(|&d| d < NEXT[u]).collect();
+            let pick: Vec<i64> = if thorough { all } else { all.into_iter().filter(|d| [1, 2, 5, 15, 30, 500, 3, 12, 25, 125].contains(d)).collect() };
+            pick.into_iter().map(move |i| (u, i))
+        })
+        .collect();
+    let times = vf::pools::times();
+    let tss = vf::pools::timestamps();
+    let dts: Vec<DateTime> = {
+        let ds = vf::pools::dates();
+        let tms = [Time::midnight(), Time::new(11, 59, 59, 999_999_999).unwrap(), Time::new(23, 59, 59, 500_000_000).unwrap()];
+        ds.iter().flat_map(|&d| tms.iter().map(move |&tm| DateTime::from_parts(d, tm))).collect()
+    };
+    let ny = vf::zones::rep().into_iter().find(|z| z.name == "America/New_York").and_then(|z| vf::zones::load_pair(&z).ok()).map(|p| p.jiff);
+    let mut tzs: Vec<(String, TimeZone)> = vec![("UTC".into(), TimeZone::UTC), ("fixed(-05:45)".into(), TimeZone::fixed(Offset::from_seconds(-20_700).unwrap()))];
+    if let Some(z) = ny {
+        tzs.push(("America/New_York".into(), z));
     }
-    let mut n = 0u64;
-    let tod = civil.rem_euclid(DAY_NS);
-    let day = civil.div_euclid(DAY_NS);
-    let year = cal::civil_from_days(day as i64).0;
-    let one = |u: usize, inc: i64, n: &mut u64| {
+    cfgs.par_iter().for_each(|&(u, inc)| {
         let b = inc as i128 * UNITS[u].2;
+        let unit = UNITS[u].0;
+        let mut n = 0u64;
+        let mut l = Loc::new();
+        let check = |what: &str, case: &dyn Fn() -> String, got: Result<Option<i128>, String>, want: i128| match got {
+            Err(p) => r.viol("difference", &format!("{}/{}", what, panic_sig(&p)), case(), p),
+            Ok(None) => {
+                // a rounded total beyond the span limit of 175_307_616 hours may be refused
+                if want.abs() <= 175_307_616 * 3_600 * NS {
+                    r.viol("difference", &format!("{}/err", what), case(), format!("jiff Err model {}", want))
+                }
+            }
+            Ok(Some(g)) => {
+                if g != want {
+                    r.viol("difference", &format!("{}/value", what), case(), format!("jiff total {}ns model {}ns", g, want));
+                }
+            }
+        };
         for (jm, mm, mname) in MODES {
-            let rt = num::round(tod, b, mm);
-            let rc = day * DAY_NS + rt;
-            let mut class: Option<&str> = None;
-            if rt == DAY_NS && year <= 0 {
-                class = Some("Zoned::round/day-carry:year<=0");
+            for &a in &times {
+                for &c in &times {
+                    let diff = conv::time_ns(c) - conv::time_ns(a);
+                    let case = |op: &str| format!("Time {} {} {} smallest {}x{} {}", a, op, c, inc, UNITS[u].1, mname);
+                    check("Time::until(rounded)", &|| case("until"), guard(|| a.until(TimeDifference::new(c).smallest(unit).increment(inc).mode(jm)).ok().map(span_ns)), num::round(diff, b, mm));
+                    check("Time::since(rounded)", &|| case("since"), guard(|| a.since(TimeDifference::new(c).smallest(unit).increment(inc).mode(jm)).ok().map(span_ns)), num::round(-diff, b, mm));
+                    l.shape(Ty::Time, diff, b, 1, num::round(diff, b, mm));
+                    n += 2;
+                }
             }
-            let want = if rc > dt_max {
-                ZWant::Err
-            } else {
-                let rc_sec = rc.div_euclid(NS) as i64;
-                let frac = rc.rem_euclid(NS);
-                let t0 = rc_sec - off;
-                let tsec = if z.utoff_at(t0) as i64 == off {
-                    t.z_kept.fetch_add(1, Relaxed);
-                    Some(t0)
-                } else {
-                    let pre = z.preimages(rc_sec);
-                    if let Some(m) = pre.iter().map(|p| p.0).min() {
-                        t.z_fold.fetch_add(1, Relaxed);
-                        Some(m)
-                    } else {
-                        let g = z.gap_around(rc_sec);
-                        if g.len() == 1 {
-                            t.z_gap.fetch_add(1, Relaxed);
-                            Some(rc_sec - utoff_of_piece(z, g[0] - 1))
-                        } else {
-                            None
-                        }
-                    }
-                };
-                match tsec {
-                    None => ZWant::Skip,
-                    Some(s) => {
-                        let v = s as i128 * NS + frac;
-                        if v < ts_min || v > ts_max {
-                            ZWant::Err
-                        } else {
-                            ZWant::Ok(v)
-                        }
+            for &a in &tss {
+                for &c in &tss {
+                    let diff = c.as_nanosecond() - a.as_nanosecond();
+                    let case = |op: &str| format!("Timestamp {} {} {} largest h smallest {}x{} {}", conv::fmt_ns(a.as_nanosecond()), op, conv::fmt_ns(c.as_nanosecond()), inc, UNITS[u].1, mname);
+                    check("Timestamp::until(rounded)", &|| case("until"), guard(|| a.until(TimestampDifference::new(c).largest(Unit::Hour).smallest(unit).increment(inc).mode(jm)).ok().map(span_ns)), num::round(diff, b, mm));
+                    check("Timestamp::since(rounded)", &|| case("since"), guard(|| a.since(TimestampDifference::new(c).largest(Unit::Hour).smallest(unit).increment(inc).mode(jm)).ok().map(span_ns)), num::round(-diff, b, mm));
+                    n += 2;
+                }
+            }
+            // Zoned: with largest <= hours the difference is the one of the instants
+            for (zname, tz) in &tzs {
+                let zs: Vec<jiff::Zoned> = tss.iter().map(|ts| ts.to_zoned(tz.clone())).collect();
+                for (ia, a) in zs.iter().enumerate() {
+                    for (ic, c) in zs.iter().enumerate() {
+                        let diff = tss[ic].as_nanosecond() - tss[ia].as_nanosecond();
+                        let case = |op: &str| format!("Zoned {} {} {} {} largest h smallest {}x{} {}", zname, conv::fmt_ns(tss[ia].as_nanosecond()), op, conv::fmt_ns(tss[ic].as_nanosecond()), inc, UNITS[u].1, mname);
+                        check("Zoned::until(rounded)", &|| case("until"), guard(|| a.until(ZonedDifference::new(c).largest(Unit::Hour).smallest(unit).increment(inc).mode(jm)).ok().map(span_ns)), num::round(diff, b, mm));
+                        check("Zoned::since(rounded)", &|| case("since"), guard(|| a.since(ZonedDifference::new(c).largest(Unit::Hour).smallest(unit).increment(inc).mode(jm)).ok().map(span_ns)), num::round(-diff, b, mm));
+                        n += 2;
                     }
                 }
-            };
-            let want = match want {
-                ZWant::Skip => {
-                    t.z_skip_amb.fetch_add(1, Relaxed);
-                    continue;
+            }
+            for &a in &dts {
+                for &c in &dts {
+                    let diff = conv::dt_civil_ns(c) - conv::dt_civil_ns(a);
+                    let case = |op: &str| format!("DateTime {} {} {} largest h smallest {}x{} {}", a, op, c, inc, UNITS[u].1, mname);
+                    check("DateTime::until(rounded)", &|| case("until"), guard(|| a.until(DateTimeDifference::new(c).largest(Unit::Hour).smallest(unit).increment(inc).mode(jm)).ok().map(span_ns)), num::round(diff, b, mm));
+                    check("DateTime::since(rounded)", &|| case("since"), guard(|| a.since(DateTimeDifference::new(c).largest(Unit::Hour).smallest(unit).increment(inc).mode(jm)).ok().map(span_ns)), num::round(-diff, b, mm));
+                    n += 2;
                 }
-                ZWant::Ok(v) => Want::Ok(v),
-                ZWant::Err => Want::Err,
-            };
-            let case = || format!("Zoned {} {} ({}) round {}x{} {}", pair.name, conv::fmt_ns(x), fmt_civil(civil), inc, UNITS[u].1, mname);
-            let got = guard(|| zdt.round(ZonedRound::new().smallest(UNITS[u].0).increment(inc).mode(jm)).ok().map(|v| v.timestamp().as_nanosecond()));
-            judge(r, t, "zoned", "Zoned", Leg::Legal, class, &case, got, want);
-            *n += 1;
+            }
         }
-    };
-    match only_cfg {
-        Some((u, inc)) => one(u, inc, &mut n),
-        None => {
-            for &(u, inc) in cfgs {
-                one(u, inc, &mut n);
+        l.flush(t);
+        r.add_states(n / 18);
+        r.add_transitions(n);
+        r.add_validated(n);
+    });
+    // increments that do not evenly divide the next larger unit must be refused here too
+    let mut l = Loc::new();
+    let mut n = 0u64;
+    let a_t = Time::new(1, 2, 3, 456_789_123).unwrap();
+    let c_t = Time::new(17, 45, 59, 999_999_999).unwrap();
+    let a_ts = Timestamp::from_nanosecond(-1_500_000_000).unwrap();
+    let c_ts = Timestamp::from_nanosecond(MODERN).unwrap();
+    let a_dt = DateTime::from_parts(Date::new(0, 12, 31).unwrap(), a_t);
+    let c_dt = DateTime::from_parts(Date::new(1, 1, 2).unwrap(), c_t);
+    let a_z = a_ts.to_zoned(TimeZone::UTC);
+    let c_z = c_ts.to_zoned(TimeZone::UTC);
+    for u in 0..6 {
+        let unit = UNITS[u].0;
+        for inc in [0i64, -1, i64::MIN, 7, 13, NEXT[u] + 1, 2 * NEXT[u], i64::MAX] {
+            if NEXT[u] % inc.max(1) == 0 && inc > 0 {
+                continue;
+            }
+            for (jm, _mm, mname) in MODES {
+                let outs: [(&str, Result<bool, String>); 8] = [
+                    ("Time::until(rounded)", guard(|| a_t.until(TimeDifference::new(c_t).smallest(unit).increment(inc).mode(jm)).is_ok())),
+                    ("Time::since(rounded)", guard(|| a_t.since(TimeDifference::new(c_t).smallest(unit).increment(inc).mode(jm)).is_ok())),
+                    ("Timestamp::until(rounded)", guard(|| a_ts.until(TimestampDifference::new(c_ts).largest(Unit::Hour).smallest(unit).increment(inc).mode(jm)).is_ok())),
+                    ("Timestamp::since(rounded)", guard(|| a_ts.since(TimestampDifference::new(c_ts).largest(Unit::Hour).smallest(unit).increment(inc).mode(jm)).is_ok())),
+                    ("DateTime::until(rounded)", guard(|| a_dt.until(DateTimeDifference::new(c_dt).largest(Unit::Hour).smallest(unit).increment(inc).mode(jm)).is_ok())),
+                    ("DateTime::since(rounded)", guard(|| a_dt.since(DateTimeDifference::new(c_dt).largest(Unit::Hour).smallest(unit).increment(inc).mode(jm)).is_ok())),
+                    ("Zoned::until(rounded)", guard(|| a_z.until(ZonedDifference::new(&c_z).largest(Unit::Hour).smallest(unit).increment(inc).mode(jm)).is_ok())),
+                    ("Zoned::since(rounded)", guard(|| a_z.since(ZonedDifference::new(&c_z).largest(Unit::Hour).smallest(unit).increment(inc).mode(jm)).is_ok())),
+                ];
+                for (what, got) in outs {
+                    n += 1;
+                    let case = format!("{} smallest {}x{} {}", what, inc, UNITS[u].1, mname);
+                    match got {
+                        Ok(false) => l.inc(C::DiffIllegalRejected),
+                        // input class: with the default smallest unit (nanosecond) an increment <= 0
+                        // skips the span rounding altogether (`rounding_may_change_span`)
+                        Ok(true) if u == 0 && inc <= 0 => r.viol("difference", &format!("{}/nonpositive-increment-not-rejected:smallest=nanosecond", what), case, "jiff Ok but the increment is not positive"),
+                        Ok(true) => r.viol("difference", &format!("{}/illegal-increment-not-rejected:{}", what, inc_class(inc)), case, "jiff Ok but the increment does not evenly divide the next larger unit"),
+                        Err(p) => r.viol("difference", &format!("{}/illegal-increment:{}", what, panic_sig(&p)), case, p),
+                    }
+                }
             }
         }
     }
-    if only_cfg.is_some() {
-        return n;
-    }
-    // Unit::Day
-    let s0 = first_instant_of_day(z, day as i64);
-    let s1 = first_instant_of_day(z, day as i64 + 1);
-    let bounds = match (s0, s1) {
-        (Some(a), Some(b)) => {
-            let (a, b) = (a as i128 * NS, b as i128 * NS);
-            if a >= ts_min && b <= ts_max && a <= x && x < b {
-                Some((a, b))
-            } else {
-                None
-            }
-        }
-        _ => None,
-    };
-    for (jm, mm, mname) in MODES {
-        let case = || format!("Zoned {} {} ({}) round 1xd {}", pair.name, conv::fmt_ns(x), fmt_civil(civil), mname);
-        let got = guard(|| zdt.round(ZonedRound::new().smallest(Unit::Day).mode(jm)).ok().map(|v| v.timestamp().as_nanosecond()));
-        match bounds {
-            None => {
-                // day bounds not both representable / instant outside its own
-                // civil day's first run: only "no panic" is demanded
-                t.z_skip_day.fetch_add(1, Relaxed);
-                if let Err(p) = got {
-                    r.viol("zoned", &format!("Zoned::round(day)/{}", panic_sig(&p)), case(), p);
-                }
-            }
-            Some((a, b)) => {
-                let l = b - a;
-                let res = a + num::round(x - a, l, mm);
-                if l != DAY_NS {
-                    t.z_day_not24.fetch_add(1, Relaxed);
-                }
-                if res == b && x != a {
-                    t.z_day_up.fetch_add(1, Relaxed);
-                } else {
-                    t.z_day_down.fetch_add(1, Relaxed);
-                }
-                // input class N3: this civil day or the next one does not begin at
-                // 00:00 on the wall clock (its midnight falls in a gap), so
-                // "start + 1 day" is not the start of the next day
-                // A day that begins right after a gap which itself began at 00:00
-                // is handled (start of day = compatible resolution of midnight).
-                // A gap that *straddles* midnight (began before 00:00, or skips
-                // the whole previous day) is its own input class: jiff resolves
-                // midnight with the compatible strategy, which lands later than
-                // the first instant of the day.
-                let straddles = |s: i128| {
-                    let wall = |t: i128| (t + z.utoff_at(t.div_euclid(NS) as i64) as i128 * NS).rem_euclid(DAY_NS);
-                    wall(s) != 0 && wall(s - 1) != DAY_NS - 1
-                };
-                let class = if straddles(a) || straddles(b) { Some("Zoned::round(day)/day-or-next-day-begins-after-gap-straddling-midnight") } else { Some("Zoned::round(day)/value") };
-                judge(r, t, "zoned", "Zoned", Leg::Legal, class, &case, got, Want::Ok(res));
-            }
-        }
-        n += 1;
-    }
-    n
+    l.flush(t);
+    r.add_states(n);
+    r.add_transitions(n);
+    r.add_validated(n);
 }
